@@ -185,6 +185,42 @@ def bounded_transparency(reg, tier, seed):
                 failures.append({"key": "transparency/bounded", "clause": "a simulator's return route changed", "input": {"region": ridx}, "observed": ""})
     finally:
         h3.close()
+    # messages the proxy itself takes note of (kept out of the long sequence above because they change session state), through
+    # regions announced with and without a region handle (a neighbour known only from EstablishAgentCommunication has none):
+    # forwarded exactly once, content intact, like everything else
+    h4 = Harness(n_regions=2)
+    try:
+        bare = ("10.0.0.9", 13009)
+        h4.session.register_region(bare, seed_url="https://test.localhost:4/r9")
+        h4.region_addrs.append(bare)
+        h4.open_circuits()
+        by_name = {t.name: t for t in msggen.templates()}
+        pid4 = 1
+        for name, direction in (("RegionHandshake", Direction.IN), ("AgentDataUpdate", Direction.IN), ("RegionHandshake", Direction.IN),
+                                ("UseCircuitCode", Direction.OUT), ("CompleteAgentMovement", Direction.OUT), ("RegionHandshakeReply", Direction.OUT)):
+            for ridx in (0, 1, 2):
+                pid4 += 1
+                m = msggen.gen_message(by_name[name], rng, packet_id=pid4, direction=direction, flags=rng.choice([0, 0x40]), counts="one")
+                if name == "UseCircuitCode":
+                    m["CircuitCode"]["Code"] = h4.session.circuit_code
+                    m["CircuitCode"]["SessionID"] = h4.session.id
+                    m["CircuitCode"]["ID"] = h4.session.agent_id
+                data, src = h4.datagram(m, ridx)
+                exc, sent = h4.feed(data, src)
+                evals += 1
+                seen.add(("noted", name, ridx))
+                inp = {"message": name, "region": ridx, "region_has_handle": ridx != 2, "datagram": data.hex()[:120]}
+                if exc is not None or len(sent) != 1:
+                    failures.append({"key": "transparency/bounded", "clause": f"{name} through a region {'without' if ridx == 2 else 'with'} a handle: "
+                                     f"{len(sent)} datagrams forwarded, exception {exc!r}; expected exactly 1", "input": inp, "observed": repr(exc)})
+                    continue
+                raw, dst, pkt = sent[0]
+                want_dst = h4.region_addrs[ridx] if direction == Direction.OUT else h4.client_addr
+                if dst != want_dst or not msggen.same_message(de.deserialize(pkt.data), de.deserialize(h4.serializer.serialize(m))):
+                    failures.append({"key": "transparency/bounded", "clause": f"{name} was not forwarded intact to {want_dst}", "input": inp,
+                                     "observed": str(dst)})
+    finally:
+        h4.close()
     # pre-session datagrams: a fresh protocol with no session discards everything but UseCircuitCode
     h2 = Harness()
     try:
